@@ -442,9 +442,9 @@ Proof. intros E. unfold kept_pulling. rewrite E. destruct (find_track id (tracks
 
 Definition kp_wf (id : nat) (tl tl' : timeline) : Prop := wf tl -> wf tl' /\ kept_pulling id tl tl'.
 
-Lemma phase_tracks_kp cfg id ids tl calls : no_cb_ops cfg -> kp_wf id tl (fst (fst (phase_tracks cfg tl ids calls))).
+Lemma phase_tracks_kp cfg id ids tl calls : no_cb_ops cfg -> no_cb_stop cfg -> kp_wf id tl (fst (fst (phase_tracks cfg tl ids calls))).
 Proof.
-  intros NC. apply (Q_phase_tracks cfg (kp_wf id) pulls).
+  intros NC NS. apply (Q_phase_tracks cfg (kp_wf id) pulls).
   - intros tl0 W. split; [exact W|apply kp_refl].
   - intros a b c H1 H2 W. destruct (H1 W) as [Wb K1]. destruct (H2 Wb) as [Wc K2].
     split; [exact Wc|apply (kp_trans id a b c K1 K2)].
@@ -462,6 +462,7 @@ Proof.
   - intros tl0 n W. split; [exact W|]. apply kp_same. reflexivity.
   - intros. apply tick_a_pulls.
   - intros. apply tick_b_pulls.
+  - intros tr [cb Hcb]. exfalso. exact (NS cb Hcb).
 Qed.
 
 (* the timeline a tick leaves behind has the tracks and actions the track phase left *)
@@ -492,13 +493,13 @@ Proof.
 Qed.
 
 (* one tick on which no start for [id] is due: the track, if it survives, has only been pulled from *)
-Theorem tl_tick_kp cfg tl id : wf tl -> no_cb_ops cfg -> last_start (now tl) id (actions tl) None = None ->
+Theorem tl_tick_kp cfg tl id : wf tl -> no_cb_ops cfg -> no_cb_stop cfg -> last_start (now tl) id (actions tl) None = None ->
   kept_pulling id tl (fst (fst (tl_tick cfg tl))).
 Proof.
-  intros W NC L. pose proof (tl_tick_result cfg tl) as R. pose proof (tick_pre_wf tl W) as W3.
+  intros W NC NS L. pose proof (tl_tick_result cfg tl) as R. pose proof (tick_pre_wf tl W) as W3.
   destruct (tick_pre_spec tl) as [_ [_ [_ [_ Fd]]]]. specialize (Fd id). rewrite L in Fd.
   destruct (tick_pre tl) as [tl3 c13]. cbn [fst] in *. destruct R as [R1 _].
-  destruct (phase_tracks_kp cfg id (map t_id (tracks tl3)) tl3 [] NC W3) as [_ K].
+  destruct (phase_tracks_kp cfg id (map t_id (tracks tl3)) tl3 [] NC NS W3) as [_ K].
   unfold kept_pulling in *. rewrite R1. rewrite Fd in K.
   destruct (find_track id (tracks tl)) as [tr|]; cbn [option_map started_with] in K; [|exact K].
   destruct (find_track id (tracks (fst (fst (phase_tracks cfg tl3 (map t_id (tracks tl3)) []))))) as [tr'|]; [|exact I].
@@ -582,16 +583,16 @@ Qed.
 
 (* until the first tick that begins at or after X, the earliest pending start for track [id]: the track
    keeps pulling from the stream it has (n plain ticks, callbacks without operations) *)
-Theorem ticks_kp cfg id X : no_cb_ops cfg -> 0 < tau cfg -> forall n tl, wf tl -> starts_from X id tl ->
+Theorem ticks_kp cfg id X : no_cb_ops cfg -> no_cb_stop cfg -> 0 < tau cfg -> forall n tl, wf tl -> starts_from X id tl ->
   (n = 0%nat \/ now tl + (Z.of_nat n - 1) * tau cfg < X) ->
   kept_pulling id tl (run_state cfg tl (repeat OTick n)).
 Proof.
-  intros NC Htau. induction n as [|n IH]; intros tl W S Hn; [apply kp_refl|].
+  intros NC NS Htau. induction n as [|n IH]; intros tl W S Hn; [apply kp_refl|].
   cbn [repeat run_state step].
   assert (Hnow : now tl < X) by (destruct Hn as [Hn|Hn]; [discriminate|nia]).
   assert (L : last_start (now tl) id (actions tl) None = None).
   { apply last_start_none. intros t s Hi. specialize (S t s Hi). lia. }
-  pose proof (tl_tick_kp cfg tl id W NC L) as K. pose proof (tl_tick_wf cfg tl W) as W'.
+  pose proof (tl_tick_kp cfg tl id W NC NS L) as K. pose proof (tl_tick_wf cfg tl W) as W'.
   pose proof (tl_tick_starts_from cfg tl X id NC S) as S'. pose proof (tl_tick_now cfg tl) as Nw.
   destruct (tl_tick cfg tl) as [[tl' c] res]. cbn [fst] in *.
   apply (kp_trans id _ _ _ K). apply IH; [exact W'|exact S'|].
